@@ -16,9 +16,9 @@ def search(ctx):
 
 
 def run(ctx):
-    ctx.extract(["precedence", "lookahead", "fstrtext"])
+    ctx.extract(["precedence", "lookahead", "fstrtext", "identscan"])
     ctx.prove(PROPS, extra_modules=["RotoV.Model.Pratt", "RotoV.Model.Literal", "RotoV.Model.FString",
-                                    "RotoV.Model.LookAheadBase", "RotoV.Model.LookAhead",
+                                    "RotoV.Model.LookAheadBase", "RotoV.Model.LookAhead", "RotoV.Model.IdentScan", "RotoV.Lemmas.IdentScan",
                                     "RotoV.Lemmas.Pratt", "RotoV.Lemmas.Literal", "RotoV.Lemmas.LookAhead"])
     if ctx.build_harness("c09"):
         ctx.harness("c09", ["run", ctx.seed, ctx.tier], timeout=3000)
